@@ -154,23 +154,36 @@ let rec locate h s ops j =
     let n = nat_len (op_steps h shuffle inplace ufirst !autosv s o) in
     if j <= n then Some (s, o) else locate h (run_op h shuffle inplace ufirst !autosv s o) r (j - n)
 
-(* initialisation: final=init, no history: the first oci.New on an empty directory *)
+(* initialisation: final=init; the history (if any) consists of earlier attempts crash:<j>:init *)
 let is_init sc =
   let n = String.length sc in n >= 10 && String.sub sc (n - 10) 10 = "final=init"
-let init_steps () = new_steps shuffle inplace src_layout_inplace empty_fs (nat_of_int 0)
 let rec take n l = if n <= 0 then [] else match l with [] -> [] | x :: r -> x :: take (n - 1) r
+let init_cuts sc =
+  let parts = String.split_on_char ';' sc in
+  let h = List.fold_left (fun acc x ->
+      if String.length x >= 5 && String.sub x 0 5 = "hist=" then String.sub x 5 (String.length x - 5) else acc) "" parts in
+  List.map (fun it ->
+      match String.split_on_char ':' it with
+      | ["crash"; j; "init"] -> nat_of_int (int_of_string j)
+      | _ -> failwith "init history") (List.filter (fun y -> y <> "") (String.split_on_char ',' h))
+(* the directory the earlier attempts left, the counter, and the steps of the next attempt *)
+let init_state sc =
+  let (fs, c) = init_attempts shuffle inplace src_layout_inplace (init_cuts sc) empty_fs (nat_of_int 0) in
+  (fs, c, new_steps shuffle inplace src_layout_inplace fs c)
 
 let () =
   iter_lines (fun l ->
     match split_ws l with
     | id :: "S" :: sc :: _ when is_init sc ->
+      let (_, _, st) = init_state sc in
       Printf.printf "%s\n" (String.trim (Printf.sprintf "%s STEPS %s" id
-        (String.concat " " (List.map show_step (init_steps ())))))
+        (String.concat " " (List.map show_step st))))
     | id :: "K" :: j :: sc :: _ when is_init sc ->
-      let fsk = apply (take (int_of_string j) (init_steps ())) empty_fs in
-      let fs2 = apply (new_steps shuffle inplace src_layout_inplace fsk (nat_of_int 1)) fsk in
+      let (fs, c, st) = init_state sc in
+      let fsk = apply (take (int_of_string j) st) fs in
+      let fs2 = apply (new_steps shuffle inplace src_layout_inplace fsk (S c)) fsk in
       let ok = new_okb fsk && layout_okb fs2 && (match read_index fs2 with Some [] -> true | _ -> false) in
-      Printf.printf "%s STATE %s%s\n" id (show_fs [] 1 fsk) (if ok then "" else " MODEL-NOT-RECOVERABLE")
+      Printf.printf "%s STATE %s%s\n" id (show_fs [] (int_of_nat c + 1) fsk) (if ok then "" else " MODEL-NOT-RECOVERABLE")
     | id :: "R" :: sc :: _ when is_init sc -> Printf.printf "%s RES ok\n" id
     | id :: "S" :: sc :: _ ->
       let (blobs, hist, fin) = parse_script sc in
